@@ -135,7 +135,10 @@ def check_stream(kind, S: bytes, chunks, cfgs=X.CFGS):
 
 def replay(case: dict) -> list[str]:
     S = bytes.fromhex(case["stream"])
-    chunks = [S] if case["how"] == "oneshot" else ([bytes.fromhex(c) for c in case["chunks"]] if "chunks" in case else X.bytewise(S))
+    if case["how"] == "fixed":
+        chunks = X.fixed(S, case["k"])
+    else:
+        chunks = [S] if case["how"] == "oneshot" else ([bytes.fromhex(c) for c in case["chunks"]] if "chunks" in case else X.bytewise(S))
     return [m for _, m, _ in check_stream(case["kind"], S, chunks)]
 
 
@@ -198,6 +201,33 @@ def _work_e3(task) -> core.Part:
     return p
 
 
+def _work_long(task) -> core.Part:
+    """Several KiB of periodic noise (C16.long_noises) in small chunks, then a clean stream: nothing may raise."""
+    from mc.props import C16
+
+    reader, quick, lo, step = task
+    p = core.Part()
+    for idx, (label, noise) in enumerate(C16.long_noises(reader, quick)):
+        if idx % step != lo:
+            continue
+        kind = "p1" if reader == "p1" else "hdlc"
+        S = noise
+        fam = (("fixed7", X.fixed(S, 7)), ("fixed1000", X.fixed(S, 1000)), ("fixed64", X.fixed(S, 64)), ("oneshot", [S]))
+        for how, chunks in fam:
+            res = check_stream(kind, S, chunks, cfgs=X.CFGS if reader != "p1" else ())
+            p.add("executions", 5)
+            p.add("events", len(chunks) * 5)
+            p.out("ok" if not res else "raises_or_unusable")
+            for vk, msg, cfg in res:
+                p.viol(vk, f"{vk}:{msg}:{label}:{how}", f"long noise {label} ({len(S)} B, {how}): {msg}", {"kind": kind, "stream": S.hex(), "how": how, "chunks": [c.hex() for c in chunks]} if len(chunks) < 40 else
+                       {"kind": kind, "stream": S.hex(), "how": "fixed", "k": int(how[5:])}, size=len(S))
+        p.add("nontrivial")
+        if p.full("raises") or p.full("unusable"):
+            p.capped = True
+            break
+    return p
+
+
 def main(run: core.Run) -> int:
     q = run.quick
     run.rule = ("HDLC: every string <=N over {00,7D,7E,5E,80,FF,'/','!',LF}; P1: every sequence of <=N tokens over a 15-token structural alphabet; "
@@ -222,6 +252,8 @@ def main(run: core.Run) -> int:
     run.log(f"E3: {len(e3)} tasks")
     # split the 2-edit bases by first edit position implicitly: they are few; run as they are
     run.merge(par.pmap(_work_e3, e3, seed=run.seed))
+    run.log("long periodic noise")
+    run.merge(par.pmap(_work_long, [(rd, q, i, 32) for rd in ("p1", "hdlc") for i in range(32)], seed=run.seed))
     tot = run.total
     tot.sample({"p1_tokens": ["id", "crlf", "!", "zz", "crlf"], "stream": "/ABC5x\r\n!zz\r\n", "probes": "ModeDReader.read, message properties, 2 protocol classes x 2 candidate orders"})
     tot.sample({"hdlc_octets": "7e 80 7d 7e ff", "configs": 4})
